@@ -1362,8 +1362,10 @@ def gen_file(ws, fsx: FileSpec, log):
         if len(cands) != 1:
             raise LostAnchor(f"{fsx.path}: item `{isp.header}` found {len(cands)} times")
         it = cands[0]
-        ed.insert(toks[it.first].pos, "verus! {\n", prio=9)
-        ed.insert(toks[it.last].end, "\n} // verus!\n", prio=-9)
+        split = "split" in isp.flags and it.kind == "impl"
+        if not split:
+            ed.insert(toks[it.first].pos, "verus! {\n", prio=9)
+            ed.insert(toks[it.last].end, "\n} // verus!\n", prio=-9)
         if "XB" in isp.flags:
             # the type stays opaque to Verus (fields outside its dialect): #[verifier::external_body]
             ed.insert(toks[it.first].pos, "#[verifier::external_body] ", prio=8)
@@ -1432,6 +1434,17 @@ def gen_file(ws, fsx: FileSpec, log):
                     continue
                 qual = f"{prefix}::{ch.name}"
                 fs = isp.fns.get(ch.name)
+                if split:
+                    # `item impl T [split]`: the impl block stays outside verus! (its other methods are outside the dialect
+                    # even as external items: async, select!, closures the macro cannot re-borrow); each listed method is
+                    # put into an impl block of its own, where it stands, by closing the block before it and reopening
+                    # it behind it — insertions only, the method text itself is untouched
+                    if fs is None or fs.mode == "external":
+                        continue
+                    hdr_rest = isp.header[len("impl "):]
+                    ed.insert(toks[ch.first].pos, "}\nverus! {\nimpl " + hdr_rest + " {\n", prio=9)
+                    ed.insert(toks[ch.last].end, "\n}\n} // verus!\nimpl " + hdr_rest + " {\n", prio=-9)
+                    log["rewrites"].append({"rule": "SPLIT", "fn": qual, "before": "impl T { .. fn f .. }", "after": "impl T { .. } verus!{ impl T { fn f } } impl T { .. }", "count": 1})
                 if fs is None:
                     if isp.default == "verify":
                         fs = FnSpec(ch.name, "verify")
